@@ -43,6 +43,11 @@ struct SoPlexVerifAccess
    {
       return sp._rationalLP != nullptr;
    }
+   // algorithm type (ENTER / LEAVE) the floating-point solver is currently set to
+   template <class R> static int solverType(const soplex::SoPlexBase<R>& sp)
+   {
+      return (int) sp._solver.type();
+   }
    // column j of the LP as the solver object holds it (scaled values when isRealLPScaled)
    template <class R> static std::vector<std::pair<int, R>> internalColVector(const soplex::SoPlexBase<R>& sp, int j)
    {
